@@ -114,7 +114,7 @@ def domain(op, leaf_spec):
             return None
         if list(op.base.wires) != list(op.wires):
             raise Reject("adjoint wire order differs from base")
-        return ref_matrix(op.base, leaf) @ D  # image of the base's domain
+        return ref_matrix(op.base, leaf_spec) @ D  # image of the base's domain
     if name in ("Controlled", "ControlledOp", "ControlledOp2", "Controlled2") and hasattr(op, "base"):
         D = domain(op.base, leaf_spec)
         if D is None:
@@ -152,7 +152,9 @@ def all_work_wires(op):
     while o is not None:
         ww = getattr(o, "work_wires", None)
         if ww is not None and len(ww):
-            t = getattr(o, "work_wire_type", None) or "borrowed"
+            # controlled operators declare the type; templates without a declared type use their work wires as
+            # clean ancillas (|0> in, |0> out) -- the weaker reading, so never a source of false alarms
+            t = getattr(o, "work_wire_type", None) or "zeroed"
             for w in ww:
                 if w not in op.wires and w not in seen:
                     seen.add(w)
@@ -166,10 +168,19 @@ def expand(ops, depth=0):
     wire) are replaced by their own documented decomposition so that the reference simulator can run them."""
     out = []
     for o in ops:
-        if o.has_matrix or type(o).__name__ in ("GlobalPhase", "Identity", "Barrier") or not o.has_decomposition or depth > 6:
+        if o.has_matrix or type(o).__name__ in ("GlobalPhase", "Identity", "Barrier") or depth > 6:
             out.append(o)
-        else:
+        elif o.has_decomposition:
             out.extend(expand(o.decomposition(), depth + 1))
+        else:
+            # only registry rules define it (e.g. SemiAdder): use its first applicable allocation-free rule
+            for r in R.applicable_rules(o):
+                sub = R.run_rule(o, r)
+                if not sub.allocs and not sub.has_measure:
+                    out.extend(expand(sub.ops, depth + 1))
+                    break
+            else:
+                raise Reject(f"emitted {type(o).__name__} has neither matrix, decomposition nor an allocation-free rule")
     return out
 
 
